@@ -35,7 +35,8 @@ ILL_OPS = {
 }
 # audit A8: falsy values of every type for every parameter (corrupting stream, REAL side only: outside the model's argument types)
 FALSY = ["None", "False", "0", "0.0", "''", "[]", "{}", "()", "set()"]
-FALSY_PY = {"None": None, "False": False, "0": 0, "0.0": 0.0, "''": "", "[]": [], "{}": {}, "()": (), "set()": set()}
+FALSY_PY = {"None": None, "False": False, "0": 0, "0.0": 0.0, "''": "", "[]": [], "{}": {}, "()": (), "set()": set(),
+            "5": 5, "[1]": [1], "True": True, "{'a': 1}": {"a": 1}, "1.5": 1.5}
 PARAMS = {"rpms": ["variant", "arch", "nevra", "path", "sigkey", "category", "srpm"],
           "modules": ["variant", "arch", "uid", "koji_tag", "modulemd_path", "category", "rpms"],
           "extra_files": ["variant", "arch", "path", "size", "checksums"]}
@@ -132,6 +133,8 @@ class C12(Prop):
             for field in PARAMS[k]:
                 for tag in FALSY:                                   # complete: every parameter x every falsy value
                     yield {"op": "falsy", "args": {"kind": k, "base": base_ops[k], "field": field, "value": {"$py": tag}}}
+        for tag in ("5", "[1]", "True", "{'a': 1}", "1.5"):             # F42: truthy non-strings as signing key -> TypeError
+            yield {"op": "falsy", "args": {"kind": "rpms", "base": base_ops["rpms"], "field": "sigkey", "value": {"$py": tag}}}
         for sk in SIGKEYS_UNICODE:
             yield {"op": "falsy", "args": {"kind": "rpms", "base": base_ops["rpms"], "field": "sigkey", "value": sk}}
         # the two key parsers on their own: valid texts, the unparsable pools, and random edits of both
